@@ -18,7 +18,7 @@ EXPLANATION = (
     "matrix is built from. C14.c: the clip itself selects rows only by comparing the Date column with both window bounds "
     "(never by index label / position). C14.d (write-once summary): the store of a season's summary row is reachable only through the True edge of a "
     "`harvest_flag is False` test (edge removal on the CFG) - otherwise days simulated after the harvest, which exist only when the "
-    "run is extended, rewrite a completed season's row. C14.f: = C15.c (whole-row operations on the weather frame name their columns, incl. the model's weather setter): a dropped in-window day shifts every later day onto later weather. C14.e: same rule as C08.e - an aggregate over all seasons of the window makes completed seasons depend on the end date (known finding F19). NOT decided: that extending the end date leaves completed seasons of thermal-time crops "
+    "run is extended, rewrite a completed season's row. C14.f: = C15.c (whole-row operations on the weather frame name their columns, incl. the model's weather setter): a dropped in-window day shifts every later day onto later weather. C14.e: same rule as C08.e - an aggregate over all seasons of the window makes completed seasons depend on the end date (known finding F19). C14.g: the yearly CO2 series is interpolated from the whole table the user supplied - nothing derived from the clock selects its rows - so a completed season's CO2 forcing does not depend on the end date. NOT decided: that extending the end date leaves completed seasons of thermal-time crops "
     "unchanged (depends on cumulative sums; SwitchGDD averages over all seasons by design).")
 
 
@@ -132,6 +132,8 @@ def run(chk, prog, tier):
     window_selection(chk, prog, "C14.c")
     from ._siblings import season_aggregate_calendar
     season_aggregate_calendar(chk, prog, "C14.e")
+    from ._siblings import co2_series_rules
+    co2_series_rules(chk, prog, rule_interp="C14.g")
     # ---- C14.f: no whole-row operation on the weather frame may drop days (every later day would run on a later day's weather: look-ahead)
     from ._weather import whole_row_ops
     whole_row_ops(chk, prog, "C14.f")
